@@ -140,7 +140,7 @@ func writeE2E(rng *rand.Rand, dir string, n int, immediate, small bool) {
 					long := sg.Key + "=" + strings.Repeat("w", 4990) + "theEnd9"
 					found := false
 					for bi := 1; bi < len(nl.Body); bi++ {
-						if strings.HasPrefix(nl.Body[bi], sg.Key+"=") {
+						if strings.HasPrefix(nl.Body[bi], sg.Key+"=") || strings.HasPrefix(nl.Body[bi], sg.Key+":") {
 							nl.Body[bi], found = long, true
 						}
 					}
